@@ -229,7 +229,38 @@ func TestCheck(t *testing.T) {
 		lcs[wk].C["uci_moves"] += int64(len(ms))
 		r.Merge(lcs[wk])
 	})
-	r.Finish("moves_compared", "castling_moves", "en_passant_captures", "promotions", "ep_target_recorded", "ep_target_suppressed_capture_illegal",
+	// very long move lists in ONE `position ... moves ...` line (several KB): whole games of
+	// 800-1600 plies kept alive by oscillations with occasional pawn moves and captures
+	nl := r.N(48, 480)
+	ev.Parallel(nl, func(wk, i int) {
+		rng := r.RNG("c02-ucilong", i)
+		start := corpus[0]
+		sp := i%2 == 0
+		if !sp {
+			start = corpus[rng.IntN(len(corpus))]
+			start.Half %= 50
+		}
+		var steps []gen.Step
+		for try := 0; try < 6 && len(steps) < 820; try++ {
+			steps = gen.Shuffle(rng, start, 900+rng.IntN(800), 0.25+0.3*rng.Float64(), 150)
+		}
+		ms := make([]string, len(steps))
+		for k, s := range steps {
+			ms[k] = s.Move.String()
+		}
+		s := start.FEN()
+		if sp {
+			s = "startpos"
+		}
+		uciCase(r, s, ms, sp)
+		lcs[wk].C["uci_long_scripts"]++
+		if len(ms) >= 820 {
+			lcs[wk].C["uci_scripts_with_line_over_4096_bytes"]++
+		}
+		r.MaxCount("uci_longest_move_list_plies", int64(len(ms)))
+		r.Merge(lcs[wk])
+	})
+	r.Finish("uci_scripts_with_line_over_4096_bytes", "moves_compared", "castling_moves", "en_passant_captures", "promotions", "ep_target_recorded", "ep_target_suppressed_capture_illegal",
 		"rights_lost_by_rook_capture", "clock_ge_100", "clock_ge_128", "uci_scripts", "history_moves")
 }
 
